@@ -1,4 +1,6 @@
 """C21 Hook commands receive values verbatim and report their exit status — spec/misc/ExtCmd.tla"""
+import os
+
 import vf
 
 LEVEL = "model_checking"
@@ -25,6 +27,14 @@ def s(cps):
 
 def run(ctx):
     cfgs = ctx.pick(["ExtCmd_quick.cfg"], ["ExtCmd_thorough.cfg"])
+    # layer 1 = the current code; VERIF_L1_VARIANT=ExitCodeDiscarded selects the pre-fix behaviour as layer 1 (old trees)
+    variant = os.environ.get("VERIF_L1_VARIANT", "fixed")
+    if variant != "fixed":
+        for cfg in cfgs + ["TraceExtCmd.cfg"]:
+            f = ctx.specdir() + "/" + cfg
+            txt = open(f).read().replace('L1Variant = "fixed"', 'L1Variant = "%s"' % variant)
+            open(f, "w").write(txt)
+    ctx.set("layer1_variant", variant)
     cases, seen = [], set()
     for cfg in cfgs:
         r = vf.mc(ctx, "ExtCmd", cfg, workers=min(vf.NCPU, 8), timeout=900, java_opts=["-Xmx6g"])
@@ -78,8 +88,8 @@ def run(ctx):
                 seenx = "reported code 0"
             else:
                 seenx = "reported %r" % o["onexit"][0]["msg"]
-            rec = {"monitor": mon, "restart": c["restart"], "observed": seenx}
-            key = (mon, c["restart"], seenx)
+            rec = {"monitor": mon, "restart": c["restart"], "observed": seenx, "deviation": b["deviation"]}
+            key = (mon, c["restart"], seenx, b["deviation"])
         elif mon == "ArgValue":
             i = b["badargs"][0]
             classes = sorted({e["class"] for e in c["env"] for p in c["tmpl"][i - 1] if p["t"] == "var" and p["name"] == e["name"]})
@@ -105,8 +115,8 @@ def run(ctx):
         text = c["text"] if len(c["text"]) < 300 else c["text"][:300] + " ... (%d arguments)" % len(c["args"])
         if key[0] == "ExitStatus":
             d = ("a hook exiting with a non-zero status is not reported as failed with that status (%d executions, statuses %s, "
-                 "restart=%s): %s. Example: command line `<hook> %s`, exit status %d -> OnExit calls %s"
-                 % (g["n"], sorted(g["statuses"]), c["restart"], g["rec"]["observed"], text, c["status"],
+                 "restart=%s): %s [named deviation: %s]. Example: command line `<hook> %s`, exit status %d -> OnExit calls %s"
+                 % (g["n"], sorted(g["statuses"]), c["restart"], g["rec"]["observed"], g["rec"]["deviation"], text, c["status"],
                     [x["msg"] for x in o["onexit"]]))
         else:
             b = g["b"]
@@ -134,7 +144,7 @@ def run(ctx):
     ctx.set("failing_by_group", {" / ".join(str(x) for x in k): g["n"] for k, g in groups.items()})
     ctx.set("drift_events", drift)
     if drift:
-        ctx.note("%d executions differ from layer 1 (split, then os.Expand; exit code discarded) — DRIFT, not a verdict" % drift)
+        ctx.note("%d executions differ from layer 1 (split, then os.Expand; exit code reported, or the selected deviation) — DRIFT, not a verdict" % drift)
     ex = [c for c in cases if len(c["tmpl"]) == 2 and not any(c["open"]) and c["fam"] == "two"]
     if ex:
         c = ex[len(ex) // 2]
